@@ -5,6 +5,8 @@ CONSTANTS
   VarLong = 3
   Padding = FALSE
   RelFpuOK = FALSE
+  Pages = {}
+  PageReset = TRUE
   SelfKinds = {}
   Labels = {"la"}
   MaxItems = 4
